@@ -281,6 +281,7 @@ pub fn replay(opts: &Opts) -> i32 {
   let ok = match engine.as_str() {
     "mapper" => crate::mapper_mon::replay(&rep, &mut out),
     "loop" => crate::loop_mon::replay(&rep, &mut out),
+    "realdrv" => crate::realdrv_mon::replay(&rep, &mut out),
     "systemd" => crate::systemd_mon::replay(&rep, &mut out),
     "wire" => crate::wire_mon::replay(&rep, &mut out),
     "convert" => crate::convert_mon::replay(&rep, &mut out),
